@@ -332,6 +332,8 @@ func initProperties() {
 				use("PARAMMAPWRITE", "parse entry points do not store into the caller's includes map", inPkgs("thrift")),
 				use("INDEXLOWER", "lookups by id reject negative ids instead of indexing with them", inPkgs("thrift", "internal/util")),
 				use("REFLOCAL", "same-file references (service inheritance) are resolved", inPkgs("thrift")),
+				use("FIELDNEVERSET", "no descriptor accessor returns a never-assigned field", inPkgs("thrift")),
+				use("LITPAIR", "name and alias are set together", inPkgs("thrift")),
 			)},
 		{ID: "C15", Title: "Protobuf descriptors mirror the schema",
 			Decides: "the compiling cache is keyed injectively (CACHEKEY: message types sharing a simple name get distinct descriptors), kind/wire/packedness tables match the spec (KINDTABLE), name maps are built (BUILDPAIR).",
@@ -343,6 +345,8 @@ func initProperties() {
 				use("PARAMMAPWRITE", "parse entry points do not store into the caller's includes map", inPkgs("proto")),
 				use("INDEXLOWER", "lookups by number reject negative numbers instead of indexing with them", inPkgs("proto", "internal/util")),
 				use("ATTRCOVER", "every schema attribute the property names is read by the parser", nil),
+				use("FIELDNEVERSET", "no descriptor accessor returns a never-assigned field", inPkgs("proto")),
+				use("LITPAIR", "name and JSON name are set together", inPkgs("proto")),
 			)},
 		{ID: "C16", Title: "Requiredness, defaults and unknown-field options behave as documented", QuickP: true,
 			Decides: "each write/disallow option reaches its own flag bit with the documented polarity (FLAGSYNC), options reach the matching parameter of HandleRequires/CheckRequires/EncodeText/ReadAnyWithDesc (ARGSWAP), an unknown member is an error exactly when disallowed and is otherwise skipped (NEGPOLARITY, UNKNOWNSKIP), unset fields are written under the same key as present ones (KEYSRC), the descriptor's requires bitmap is only copied, never written (DESCIMMUT).",
@@ -367,6 +371,8 @@ func initProperties() {
 				use("BMSET", "http-mapped fields are recorded in the requires bitmap", inPkgs("conv/j2t", "conv/t2j")),
 				use("NILGUARDAGREE", "an absent ResponseSetter/RequestGetter never reaches the mapping code", nil),
 				use("DEADSTORE", "no option source is overwritten before it is read", nil),
+				use("LISTORDER", "the listed order of the sources survives annotation mapping", nil),
+				use("MEDIATYPE", "the body is read whatever parameters the Content-Type carries", nil),
 				use("FIRSTWINS", "first source wins", nil),
 				use("FLAGSYNC", "HTTPConv enables mapping", nil),
 				use("ARGSWAP", "options in order", inPkgs("conv/j2t", "conv/t2j", "thrift/annotation")),
